@@ -181,6 +181,22 @@ func H12e() {
 	vAssert(err == nil && msg.IsValid(), "C12.sequence.parses")
 	want := vRule(T, o)
 	vAssert(msg.Interface().(RecordMsg).Timestamp.Equal(decodeDateTime(want)), "C12.sequence.first-compressed")
+	if vParam("mid") == 1 {
+		vKnown("KF-C12-zero-timestamp-is-no-reference", want == 0)
+		// a compressed-timestamp record of a message without a timestamp
+		// field (hrv; or a message the profile does not know) is consumed
+		// like any other: it advances the reference
+		om := uint32(vByte() & 31)
+		g := MesgNumHrv
+		if vBool() {
+			g = MesgNum(0xFF42)
+		}
+		d.defmsgs[3] = &defmsg{localMsgType: 3, arch: vArch(big), globalMsgNum: g}
+		_, err = d.parseDataMessage(0x80|3<<5|byte(om), true)
+		vAssert(err == nil, "C12.sequence.parses")
+		want = vRule(want, om)
+		vKnown("KF-C12-zero-timestamp-is-no-reference", want == 0)
+	}
 	// (the same finding when the 32-bit rule wraps the reference to 0)
 	vKnown("KF-C12-zero-timestamp-is-no-reference", want == 0)
 	o2 := uint32(vByte() & 31)
